@@ -8,11 +8,14 @@ REQUIRED = ["CifModel.C19_list_is_sequence", "CifModel.C19_table_is_map", "CifMo
             "CifModel.C19_clone_disjoint", "CifModel.C19_put_copies", "CifModel.C19_remove_transfers",
             "CifModel.C19_remove_transfers_entry", "CifModel.C19_reinit_releases_heap", "CifModel.C19_capacity_growth",
             "CifModel.C16_map_heap_safe", "CifModel.C16_map_set_item_heap_safe", "CifModel.C16_map_remove_item_heap_safe",
-            "CifModel.C16_cex_F10_pinned", "CifModel.C19_clone_onto_repaired", "CifModel.C19_set_replaces_in_place"]
+            "CifModel.C16_cex_F10_pinned", "CifModel.C19_clone_onto_repaired", "CifModel.C19_set_replaces_in_place",
+            "CifModel.C16_packet_create_heap_safe", "CifModel.C16_get_keys_heap_safe", "CifModel.C19_clone_onto_heap", "CifModel.C19_reinit_heap"]
 GEN = ["ErrCodes", "ValueCols"]
-FAMILIES = ["val"]
+FAMILIES = ["val", "valheap"]
 TRUSTED_BASE = [
     "Lean 4.33.0 kernel; axioms propext, Classical.choice, Quot.sound only (audited per theorem on every run)",
+    "uthash allocates exactly two blocks (table, bucket array) while a map is non-empty and none otherwise (family valheap "
+    "observes it; bucket expansion above 320 entries is not reached)",
     "uthash as an insertion-ordered map (HASH_ADD appends to the application order, HASH_FIND finds the entry of a key, "
     "HASH_DEL removes it) — observed by family val",
     "key normalisation is a parameter of the model (`norm`); the requests carry the normalised forms, computed by Python's "
@@ -26,15 +29,16 @@ ASSUMPTIONS = [
     "the heap-level model proves the ownership protocol, not the C code",
 ]
 PARTIAL = [
-    "heap level: proved for clone (any depth), release (any depth, shared key blocks included), list insert with capacity "
-    "growth, list remove with transfer of ownership, cif_map_set_item and cif_map_retrieve_item(do_remove) on whole standalone "
-    "maps (refinement of the pure mapSet / mapErase), entry creation by cif_packet_create, re-spelling, detaching, release. "
-    "list set in place, "
-    "NOT stated at heap level: cif_packet_create for a whole name list (per name: "
-    "packetEntryCreate_spec), cif_map_get_keys (allocates an array of borrowed pointers), convert_to_standalone (unreachable "
-    "through the public API: every map the API hands out is standalone), the aliasing cases of cif_value_clone onto a related object (pure level only: C19_clone_onto_repaired), allocation failures (property C17)",
-    "the heap model is a model: that value.c / map.c / packet.c follow it is observed by family val under ASan (use-after-free, "
-    "double free, invalid free abort the case) and by the leak sweep of C16 over the same request streams",
+    "heap level: proved for clone (any depth; onto a fresh and onto an existing object incl. the aliasing cases), release (any "
+    "depth, shared key blocks included), list insert with capacity growth / set in place / remove with transfer of ownership, "
+    "cif_map_set_item and cif_map_retrieve_item(do_remove) on whole standalone maps (refinement of the pure mapSet / mapErase), "
+    "cif_packet_create over a whole name list incl. the CIF_DUP_ITEMNAME refusal, cif_packet_free, get_keys, entry re-spelling "
+    "and detaching. the (re)initialisers (reinitH). NOT stated at heap level: convert_to_standalone (unreachable through the public API), allocation "
+    "failures (property C17)",
+    "the heap model is tied to value.c / map.c / packet.c by family valheap: for every operation of the same random sequences "
+    "the change in the number of live blocks reported by the allocation tracker (harness/alloc.h) equals the change the heap "
+    "model predicts (model cells + 2 blocks per non-empty uthash map), and everything is released at the end; block CONTENTS "
+    "and addresses are not compared (ASan/UBSan watch the accesses)",
 ]
 LEVEL_TEXT = ("Proof about an executable Lean model at two levels. Pure level: list operations are the sequence operations with exactly "
               "the documented CIF_INVALID_INDEX conditions; table and packet operations refine an abstract map keyed by the normalised "
@@ -43,8 +47,10 @@ LEVEL_TEXT = ("Proof about an executable Lean model at two levels. Pure level: l
               "lives on fresh blocks and clone+release restores the heap; releasing a value frees exactly its footprint, each block "
               "once; insert copies; remove transfers ownership; the key/key_orig aliasing protocol of map entries (F10). Tied to the C "
               "by family val: random operation sequences on the real library under ASan/UBSan, compared step by step with the pure "
-              "model and, independently, with a Python transcription of the documented contracts.")
-LEVEL_NOTE = ("Pure level proved in full. Heap level partial as listed (per-entry rather than whole-map lookup; set-onto-existing not "
-              "stated). Three open findings (F32 source inside clone target / self-clone, F33 duplicate names in cif_packet_create) are "
+              "model and, independently, with a Python transcription of the documented contracts; and by family valheap: the same "
+              "sequences with the allocation tracker on, the per-operation change in live heap blocks compared with the heap "
+              "model run on the sequence.")
+LEVEL_NOTE = ("Pure level proved in full. Heap level proved for every value / list / map / packet operation except the unreachable "
+              "convert_to_standalone and allocation failures (C17). Three open findings (F32 source inside clone target / self-clone, F33 duplicate names in cif_packet_create) are "
               "reported as KNOWN-FINDING; the model reproduces the pinned behaviour (C19_cex_clone_alias, C19_cex_packet_create_dup).")
 TECHNIQUE = "Lean 4 proof (refinement of an association list to an abstract map; induction over operation histories) + differential execution of random operation sequences under ASan"
